@@ -36,7 +36,10 @@ type Case struct {
 	Close string // tcp: "boundary" (orderly close after the stream), "mid" (inside the last message), "" (keep open)
 	Cuts  []int  // tcp: sizes of the TCP writes (a composition of the stream length; remainder in one write)
 	Back  []int  // tcp: lengths of plain messages the client then writes back
-	First []byte // detect: first bytes presented to Detect
+	// CloseAfterWrite (tcp): right after its last write the client cancels its context and closes the transport, while
+	// the peer is slow to read: everything written still arrives, followed by a clean end of stream
+	CloseAfterWrite bool   `json:",omitempty"`
+	First           []byte // detect: first bytes presented to Detect
 }
 
 func payload(seed uint64, i, n int) []byte { return hx.Det(seed*131+uint64(i)+1, n) }
@@ -250,6 +253,27 @@ func oracleTCP(c Case) (err error) {
 		for i, n := range c.Back {
 			wantBack += len(frame(c.Abridged, ref.PlainPacket(0, payload(c.Seed+7, i, n))))
 		}
+		if c.CloseAfterWrite {
+			time.Sleep(120 * time.Millisecond) // a busy peer: the client has closed long before this side reads
+			var all []byte
+			chunk := make([]byte, 4096)
+			for {
+				n, rerr := conn.Read(chunk)
+				all = append(all, chunk[:n]...)
+				if rerr != nil {
+					err = rerr
+					break
+				}
+			}
+			backGot <- all
+			if err != io.EOF {
+				srvErr <- fmt.Errorf("the peer did not see a clean end of stream after the client closed: %v (%d of %d bytes received)", err, len(all), wantBack)
+				return
+			}
+			<-release
+			srvErr <- nil
+			return
+		}
 		buf := make([]byte, wantBack)
 		_, err = io.ReadFull(conn, buf)
 		backGot <- buf
@@ -327,13 +351,30 @@ func oracleTCP(c Case) (err error) {
 		}
 		wantBack = append(wantBack, frame(c.Abridged, ref.PlainPacket(id, body))...)
 	}
+	if c.CloseAfterWrite {
+		cancel()
+		tr.Close()
+	}
 	select {
 	case got := <-backGot:
+		if c.CloseAfterWrite && !bytes.Equal(got, wantBack) {
+			return fmt.Errorf("the client wrote %d bytes (every WriteMsg returned nil), cancelled and closed; the peer received %d of them (equal prefix: %v)", len(wantBack), len(got), bytes.HasPrefix(wantBack, got))
+		}
 		if !bytes.Equal(got, wantBack) {
 			return fmt.Errorf("the peer received %d bytes from the client that differ from the specified framing of its %d messages", len(got), len(c.Back))
 		}
 	case <-time.After(60 * time.Second):
 		return fmt.Errorf("INFRA: timeout waiting for the listener")
+	}
+	if c.CloseAfterWrite {
+		// how the stream ended for the peer
+		select {
+		case e := <-srvErr:
+			if e != nil {
+				return e
+			}
+		case <-time.After(100 * time.Millisecond):
+		}
 	}
 	return nil
 }
@@ -352,6 +393,9 @@ func record(c Case) {
 	hdr := 4
 	for _, n := range c.Lens {
 		total := n
+		if c.CloseAfterWrite {
+			cls = append(cls, "client-closes-right-after-writing")
+		}
 		if c.Kind == "tcp" {
 			total += 20
 		}
@@ -459,6 +503,11 @@ func gen(t *rapid.T) Case {
 		nb := rapid.IntRange(0, 3).Draw(t, "nback")
 		for i := 0; i < nb; i++ {
 			c.Back = append(c.Back, genLen(t, "backlen", 4096))
+		}
+		if c.Close == "" && rapid.IntRange(0, 7).Draw(t, "closeafterwrite") == 0 {
+			// more than the socket buffers hold, then close at once
+			c.CloseAfterWrite = true
+			c.Back = append(c.Back, 1<<20, 504, 4*rapid.IntRange(0, 300).Draw(t, "lastback"))
 		}
 	}
 	return c
